@@ -23,7 +23,7 @@ ANCHORS = [
     "raggedarray/raggedslice.py::ragged_slice", "mixin.py::NPSIndexable.__getitem__", "raggedarray/__init__.py::RaggedArray._as_padded_matrix",
 ]
 OPS = ["concat0", "concat1", "like", "padded", "nonzero", "where", "subset", "maskidx", "rslice_ra", "rslice_1d", "rslice_2d", "nps"]
-FLOOR_TAGS = ["op:" + o for o in OPS] + ["ends:none", "ends:inside", "ends:negative", "ends:beyond", "where:xy", "where:xs", "where:xx", "operands:same-object", "where:scalar-other-kind", "where:mask-not-bool", "bounds:narrow-type", "bounds:cells-exceed-type", "mask:allfalse", "mask:alltrue",
+FLOOR_TAGS = ["op:" + o for o in OPS] + ["ends:none", "ends:inside", "ends:negative", "ends:beyond", "where:xy", "where:xs", "where:xx", "operands:same-object", "where:scalar-other-kind", "where:mask-not-bool", "bounds:narrow-type", "bounds:cells-exceed-type", "matrix:rows-strided", "matrix:cols-block", "matrix:fortran", "mask:allfalse", "mask:alltrue",
                                          "operand:norows", "operand:allempty", "side:left", "side:right", "recv:fresh", "recv:lazyrows", "recv:lazycols+2", "starts:none"]
 FLOOR_MONITORS = ["c08:compare", "c08:arguments-unchanged"]
 FP_STRICT = True       # a floating-point event inside the library that the dense computation does not have is a violation (shard.FpMonitor)
@@ -246,7 +246,16 @@ def run(case):
         r = check_rows(a.value, exp, desc, tags, dtype=(np.concatenate(exp).dtype if (tot and exp) else None))
         if r:
             return r
-        return held(tags, nontrivial) if unchanged() else violated("%s modified its operand" % desc, tags)
+        if not unchanged():
+            return violated("%s modified its operand" % desc, tags)
+        # the result is a new array: overwriting it leaves x (and the mask) as they were
+        if tot and isinstance(a.value, lib.RaggedArray) and a.value.ravel().flags.writeable:
+            CTX.tick("c08:where-result-independent", bool(m.all()))
+            fl_ = a.value.ravel()
+            fl_[...] = np.logical_not(fl_) if fl_.dtype.kind == "b" else fl_ + np.ones(1, dtype=fl_.dtype)[0]
+            if not unchanged() or not same_array(np.asarray(mask.ravel()), m):
+                return violated("%s: overwriting the result changed an operand" % desc, tags + ["result-shares-memory"])
+        return held(tags, nontrivial)
     if op == "subset":
         exp = [r[mm] for r, mm in zip(rows, mrows)]
         a = attempt(lambda: ra.subset(mask))
@@ -283,6 +292,16 @@ def run_dense_slice(case, tags):
     if op == "rslice_2d":
         vals_ = case["vals"] if not isinstance(case["vals"], str) else (np.arange(case["shape"][0] * case["shape"][1]) % 251).tolist()
         M = np.array(vals_, dtype=dt).reshape(case["shape"])
+        lay_ = case.get("layout")
+        if lay_ and M.size:
+            # the same matrix as a view into a larger one: every second row, a block of columns, a transposed (Fortran-ordered) matrix
+            if lay_ == "rows-strided":
+                big_ = np.zeros((2 * M.shape[0], M.shape[1]), dtype=dt); big_[::2] = M; M = big_[::2]
+            elif lay_ == "cols-block":
+                big_ = np.zeros((M.shape[0], M.shape[1] + 5), dtype=dt); big_[:, 2:2 + M.shape[1]] = M; M = big_[:, 2:2 + M.shape[1]]
+            else:
+                M = np.asfortranarray(M)
+            tags.append("matrix:" + lay_)
         if M.size > np.iinfo(bdt).max:
             tags.append("bounds:cells-exceed-type")
         exp = [M[i, s:e] for i, (s, e) in enumerate(zip(starts.tolist(), ends.tolist()))]
@@ -341,7 +360,7 @@ def gen_case(rng, tier, op=None, lens=None, dtype=None, recv=None):
         r_, c_ = rng.randint(0, 4), rng.randint(0, 5)
         st = [rng.randint(0, c_) for _ in range(r_)]
         return {"op": op, "dtype": dtype, "shape": [r_, c_], "vals": gen.values(rng, dtype, r_ * c_, "small").tolist(), "starts": st, "ends": [rng.randint(s, c_) for s in st],
-                "bdtype": rng.choice(["int64", "int64", "int32", "int16", "int8", "uint8", "uint64"])}
+                "bdtype": rng.choice(["int64", "int64", "int32", "int16", "int8", "uint8", "uint64"]), "layout": rng.choice([None, None, "rows-strided", "cols-block", "fortran"])}
     lens_ = L()
     a = spec(rng, lens_, dtype, rv(), "sparse" if op in ("nonzero", "padded") and rng.random() < 0.8 else "small")
     c = {"op": op, "a": a}
